@@ -50,6 +50,11 @@ def Builder.timeOffset (b : Builder) (c : ClaimId) (secs : Int) : Builder × Nat
 def Builder.setcb (b : Builder) (cb : Option BuilderCb) : Builder × Nat :=
   ({ b with cfg := { b.cfg with cb := cb } }, 0)
 
+/-- `jwt_builder_setcb(builder, NULL, ctx)` with `ctx ≠ NULL`: the context of an installed callback changes, the callback
+stays; without one the call is refused with a message -/
+def Builder.setcbCtx (b : Builder) : Builder × Nat :=
+  if b.cfg.cb.isSome then (b, 0) else (b.writeError .cbCtxNoCb, 1)
+
 def Builder.errorClear (b : Builder) : Builder := { b with error := false, msg := none }
 
 def Builder.headerSet (ls : Bytes → Option Json) (b : Builder) (r : SetReq) : Builder × VErr :=
